@@ -9,6 +9,7 @@ From SV Require Import Base.Bytes Base.BytesP Base.IO Model.Headers Model.Head S
   Model.HeadLoops Proofs.HeadP Proofs.HeadReadP Proofs.HeadGrammarP Proofs.HeadClassifyP Proofs.HeadLoopsP
   Model.RustStr Model.Request Spec.Framing Proofs.RequestLevelP
   Base.Regex Generated.SourceParams Tie.RegexTie.
+From SV Require Generated.SourceParams Tie.HeadTie.
 
 (* C02.1  must-accept: a head rendered from a token method, a canonical origin-form target and
    fields name ":" OWS value OWS (token names, values in the field-value grammar) parses to exactly
@@ -158,6 +159,23 @@ Proof. vm_compute. split; reflexivity. Qed.
 Theorem c02_translation_complete : src_problems_regex = 0%nat.
 Proof. exact regex_translated. Qed.
 
+(* C02.src-head  Head::try_read (src/head.rs) after read_head_bytes, as TRANSLATED statement by statement ON THIS RUN
+   (props/srcparams.py -> Generated/SourceParams.v: src_try_read -- the split at LF with trim_trailing_cr, the first
+   line as request line or MissingRequestLine, parse_request_line, the loop that parses and pushes EVERY remaining
+   line, the value returned), interpreted by Tie/HeadTie.v, is the head parser the theorems above are about, for every
+   head and every URL parser; the field-value byte test of parse_header_line, the first character demanded of the
+   target and the protocol text are the model's *)
+Theorem c02_try_read_is_the_source :
+  forall url_parse hb, Tie.HeadTie.eval_try_read url_parse hb = Model.Head.parse_head url_parse hb.
+Proof. exact Tie.HeadTie.try_read_tie. Qed.
+Theorem c02_line_parser_literals_are_the_source :
+  (forall b, Base.Bytes.is_fv_byte b =
+             (N.eqb b Generated.SourceParams.src_fv_tab || Base.Bytes.in_range Generated.SourceParams.src_fv_lo Generated.SourceParams.src_fv_hi b)%bool) /\
+  Generated.SourceParams.src_target_first = [47%N] /\ Generated.SourceParams.src_protocol = Model.Head.http11.
+Proof. exact (conj Tie.HeadTie.fv_byte_tie (conj Tie.HeadTie.target_first_tie Tie.HeadTie.protocol_tie)). Qed.
+Theorem c02_try_read_translation_complete : Generated.SourceParams.src_problems_try_read = 0%nat.
+Proof. exact Tie.HeadTie.try_read_translated. Qed.
+
 Print Assumptions c02_parse_render_roundtrip.
 Print Assumptions c02_accept_implies_grammar.
 Print Assumptions c02_reject_classified.
@@ -175,3 +193,6 @@ Print Assumptions c02_request_line_regex_is_the_source_literal.
 Print Assumptions c02_request_line_recogniser_is_the_source_regex.
 Print Assumptions c02_field_line_regex_is_the_source_literal.
 Print Assumptions c02_translation_complete.
+Print Assumptions c02_try_read_is_the_source.
+Print Assumptions c02_line_parser_literals_are_the_source.
+Print Assumptions c02_try_read_translation_complete.
